@@ -33,7 +33,7 @@ def draw_case(data, tier):
     f = data.draw(st.integers(1, 3), label="f")
     dt = data.draw(st.integers(1, 3), label="dt")
     s = data.draw(st.integers(0, 3), label="s")
-    extra = data.draw(st.integers(0, 4), label="extra")
+    extra = data.draw(st.integers(0, 4), label="extra") if data.draw(st.integers(0, 7), label="long_T") else data.draw(st.integers(5, 24), label="extra_long")
     T = s + (p + f - 1) * dt + 1 + extra
     down = data.draw(st.sampled_from([0, 0, 1]), label="downsample")
     if down:
